@@ -97,7 +97,12 @@ class Repo:
             from . import inline
             ref = canon.load_reference()
             if ref:
-                self.inlined = inline.phase_b(self, {k for k in ref if not k.startswith('<')}, set(ref.get('<names>', [])))
+                import json as _json
+                shapes = {}
+                if os.path.exists(alphanorm.REF_PATH):
+                    with open(alphanorm.REF_PATH) as _f:
+                        shapes = _json.load(_f)
+                self.inlined = inline.phase_b(self, {k for k in ref if not k.startswith('<')}, set(ref.get('<names>', [])), shapes)
                 self._funcs = None
         self.normalised = alphanorm.normalise(self)
         self.respelled = dict(self.inlined)
